@@ -401,6 +401,15 @@ impl ExactSizeIterator for LocalOpaquePoolIterator<'_> {
 
 impl FusedIterator for LocalOpaquePoolIterator<'_> {}
 
+#[cfg(folo_verif)]
+impl LocalOpaquePool {
+    /// Verification hook: read-only snapshot of the inner pool's bookkeeping.
+    #[must_use]
+    pub fn verif_probe(&self) -> crate::verif::PoolProbe {
+        self.inner.borrow().verif_probe()
+    }
+}
+
 #[cfg(test)]
 #[cfg_attr(coverage_nightly, coverage(off))]
 mod tests {
